@@ -1,3 +1,838 @@
 import KeepVerif.Model.C03
+import Mathlib.Data.ZMod.Basic
+import Mathlib.Tactic.Ring
+import Mathlib.Tactic.Linarith
+import Mathlib.LinearAlgebra.Lagrange
+import Mathlib.FieldTheory.Finite.Basic
+/-!
+# C03 — Threshold BLS recovery yields the unique group signature
+
+Theorems over `Model/C03.lean` (the functions the driver runs).  The scalar field is `ZMod R`
+with `R = Gen.C03.groupOrder` (extracted from `bn256.Order`); its primality is the hypothesis
+`[Fact (Nat.Prime R)]` (A-field) — never an axiom.  Group elements are exponents (A-field: G1, G2
+cyclic of order `R`), so "`f(i) • M`" is the product `f(i) * M` in `ZMod R`.
+
+* `recover_skips`, `recover_skips_insert` — skipped entries never change the result (fixed code);
+  `recover_skips_counterexample_panic/_wrong` — false for the code before the fix;
+  `recover_skips_partial` — what did hold before the fix (no skipped entry among the first `thr`).
+* `combine_eq_secret`, `recover_eq_secret` — correct shares at distinct indices recover `f(0) • M`;
+  `recover_unique` — any subset, any order; `recover_perm` — order independence for arbitrary values.
+* `verify_iff`, `recovered_verifies` — the recovered signature verifies under the group key.
+* `validateShare_accepted_iff`, `only_verified_shares_used` — share validation in `entry.go`.
+-/
 namespace KeepVerif.C03
+
+/-! ## Selection loop and skipped entries (core Lean) -/
+
+
+/-- the shares `RecoverSignature` uses, as a function of the non-skipped entries only. -/
+def usedOf (thr : Int) (valid : List (Int × Nat)) : List (Int × Nat) :=
+  if 0 ≤ thr then valid.take thr.toNat else valid
+
+theorem collectSig_acc (thr : Int) : ∀ (es : List Entry) (acc : List (Int × Nat)),
+    collectSig thr es acc =
+      acc ++ (if (acc.length : Int) ≤ thr then (es.filterMap Entry.valid?).take (thr - acc.length).toNat
+              else es.filterMap Entry.valid?) := by
+  intro es
+  induction es with
+  | nil => intro acc; simp [collectSig]
+  | cons e es ih =>
+    intro acc
+    unfold collectSig
+    by_cases h : (acc.length : Int) = thr
+    · rw [if_pos h]
+      have : (thr - (acc.length : Int)).toNat = 0 := by omega
+      simp [h]
+    · rw [if_neg h]
+      cases hv : e.valid? with
+      | none =>
+        simp only [List.filterMap_cons, hv]
+        exact ih acc
+      | some s =>
+        simp only [List.filterMap_cons, hv]
+        rw [ih (acc ++ [s])]
+        simp only [List.length_append, List.length_cons, List.length_nil, List.append_assoc]
+        by_cases hle : (acc.length : Int) ≤ thr
+        · have h1 : ((acc.length + (0 + 1) : Nat) : Int) ≤ thr := by omega
+          rw [if_pos h1, if_pos hle]
+          have h2 : (thr - (acc.length : Int)).toNat = (thr - ((acc.length + (0 + 1) : Nat) : Int)).toNat + 1 := by
+            omega
+          rw [h2, List.take_succ_cons]
+          simp
+        · have h1 : ¬ ((acc.length + (0 + 1) : Nat) : Int) ≤ thr := by omega
+          rw [if_neg h1, if_neg hle]
+          simp
+
+theorem collectSig_eq (thr : Int) (es : List Entry) :
+    collectSig thr es [] = usedOf thr (es.filterMap Entry.valid?) := by
+  rw [collectSig_acc]
+  unfold usedOf
+  simp
+
+/-- `RecoverSignature` as a function of the non-skipped entries. -/
+def recoverValid (thr : Int) (valid : List (Int × Nat)) : Out :=
+  if ((usedOf thr valid).length : Int) < thr then .notEnough else combine (usedOf thr valid)
+
+theorem recoverSig_eq_recoverValid (thr : Int) (es : List Entry) :
+    recoverSig thr es = recoverValid thr (es.filterMap Entry.valid?) := by
+  unfold recoverSig recoverValid
+  simp only [collectSig_eq]
+
+/-- **Skipped entries do not matter** (fixed code): two input slices with the same non-skipped
+    entries in the same order — i.e. that differ only by interleaved `nil` shares, shares without a
+    value and shares with a negative index — recover the same result, for every threshold. -/
+theorem recover_skips (thr : Int) (es es' : List Entry)
+    (h : es.filterMap Entry.valid? = es'.filterMap Entry.valid?) :
+    recoverSig thr es = recoverSig thr es' := by
+  rw [recoverSig_eq_recoverValid, recoverSig_eq_recoverValid, h]
+
+/-- inserting one skipped entry anywhere changes nothing. -/
+theorem recover_skips_insert (thr : Int) (pre post : List Entry) (e : Entry) (he : e.valid? = none) :
+    recoverSig thr (pre ++ e :: post) = recoverSig thr (pre ++ post) := by
+  apply recover_skips
+  simp [List.filterMap_append, he]
+
+/-- non-vacuity: a nil entry, a value-less entry and a negative index are all skipped. -/
+example : recoverSig 3 [.nil, .share 1 6, .noV 4, .share 2 11, .share (-7) 99, .share 3 18] =
+    recoverSig 3 [.share 1 6, .share 2 11, .share 3 18] := by
+  apply recover_skips; decide
+
+/-! ### the code before the fix -/
+
+/-- **Counterexample 1** (code before the fix): `[nil, s1, s2, s3]` with threshold 3 panics, while
+    the three shares (of `3 + 2x + x²`, message exponent 1) determine the secret 3. -/
+theorem recover_skips_counterexample_panic :
+    recoverSigOld 3 [.nil, .share 1 6, .share 2 11, .share 3 18] = .panic ∧
+    recoverSig 3 [.nil, .share 1 6, .share 2 11, .share 3 18] = .ok 3 := by
+  decide +kernel
+
+/-- **Counterexample 2** (code before the fix): a first entry with a negative index is skipped by
+    the filter but its value is used: the result is not the secret. -/
+theorem recover_skips_counterexample_wrong :
+    recoverSigOld 3 [.share (-1) 5, .share 1 6, .share 2 11, .share 3 18] ≠ .ok 3 ∧
+    recoverSig 3 [.share (-1) 5, .share 1 6, .share 2 11, .share 3 18] = .ok 3 := by
+  decide +kernel
+
+
+
+theorem combineOld_eq (xs : List Int) (es : List Entry) (vals : List Nat) :
+    ∀ (is : List Nat) (acc : Nat),
+    (∀ i ∈ is, ∃ idx, es.getD i .nil = .share idx (vals.getD i 0)) →
+    combineOldFrom xs es is acc = combineFrom xs vals is acc := by
+  intro is
+  induction is with
+  | nil => intro acc _; rfl
+  | cons i is ih =>
+    intro acc h
+    obtain ⟨idx, hidx⟩ := h i (by simp)
+    unfold combineOldFrom combineFrom
+    cases hb : lagrangeBasis i xs with
+    | none => rfl
+    | some b =>
+      simp only [hidx]
+      exact ih _ (fun k hk => h k (by simp [hk]))
+
+theorem allValid_getD : ∀ (es : List Entry), (∀ e ∈ es, e.valid?.isSome) →
+    (es.filterMap Entry.valid?).length = es.length ∧
+    ∀ i, i < es.length →
+      ∃ idx, es.getD i .nil = .share idx (((es.filterMap Entry.valid?).map (·.2)).getD i 0) := by
+  intro es
+  induction es with
+  | nil => intro _; exact ⟨rfl, fun i hi => absurd hi (by simp)⟩
+  | cons e es ih =>
+    intro h
+    have he := h e (by simp)
+    obtain ⟨ihl, ihg⟩ := ih (fun e' he' => h e' (by simp [he']))
+    cases e with
+    | nil => simp [Entry.valid?] at he
+    | noV i => simp [Entry.valid?] at he
+    | share idx v =>
+      have hv : (Entry.share idx v).valid? = some (idx, v) := by
+        by_cases hneg : idx < 0
+        · simp [Entry.valid?, hneg] at he
+        · simp [Entry.valid?, hneg]
+      refine ⟨by simp [hv, ihl], ?_⟩
+      intro i hi
+      cases i with
+      | zero => exact ⟨idx, by simp [hv]⟩
+      | succ i =>
+        obtain ⟨idx', h'⟩ := ihg i (by simpa using hi)
+        refine ⟨idx', ?_⟩
+        simp only [List.filterMap_cons, hv, List.map_cons]
+        simpa [List.getD_cons_succ] using h'
+
+
+/-! ## Lagrange recovery over `ZMod R` -/
+
+open Finset
+
+theorem powModAux_cast (m : Nat) : ∀ (f acc base e : Nat), e ≤ f →
+    ((powModAux m f acc base e : ℕ) : ZMod m) = (acc : ZMod m) * (base : ZMod m) ^ e := by
+  intro f
+  induction f with
+  | zero =>
+    intro acc base e he
+    have : e = 0 := by omega
+    subst this
+    simp [powModAux]
+  | succ f ih =>
+    intro acc base e he
+    unfold powModAux
+    by_cases h0 : e = 0
+    · subst h0; simp
+    · rw [if_neg h0, ih _ _ _ (by omega)]
+      have hsq : ((base * base % m : ℕ) : ZMod m) ^ (e / 2) = (base : ZMod m) ^ (2 * (e / 2)) := by
+        rw [ZMod.natCast_mod, Nat.cast_mul, pow_mul, pow_two]
+      rw [hsq]
+      by_cases hodd : e % 2 = 1
+      · rw [if_pos hodd, ZMod.natCast_mod, Nat.cast_mul]
+        have : e = 2 * (e / 2) + 1 := by omega
+        conv_rhs => rw [this]
+        ring
+      · rw [if_neg hodd]
+        have : e = 2 * (e / 2) := by omega
+        conv_rhs => rw [this]
+
+theorem powMod_cast (m a e : Nat) : ((powMod m a e : ℕ) : ZMod m) = (a : ZMod m) ^ e := by
+  unfold powMod
+  rw [powModAux_cast m e _ _ e (Nat.le_refl e), ZMod.natCast_mod, ZMod.natCast_mod]
+  simp
+
+
+theorem foldl_cast (l : List Int) (a : Int) :
+    ((l.foldl (fun a x => (a * x) % (R : Int)) a : Int) : ZMod R)
+      = (a : ZMod R) * (l.map (fun z : Int => (z : ZMod R))).prod := by
+  induction l generalizing a with
+  | nil => simp
+  | cons x l ih =>
+    simp only [List.foldl_cons, List.map_cons, List.prod_cons]
+    rw [ih, ZMod.intCast_mod, Int.cast_mul]; ring
+
+theorem prodMod_cast (l : List Int) :
+    ((prodMod l : Int) : ZMod R) = (l.map (fun z : Int => (z : ZMod R))).prod := by
+  unfold prodMod; rw [foldl_cast]; simp
+
+theorem others_prod {M : Type} [CommMonoid M] (n i : Nat) (g : Nat → M) :
+    ((others n i).map g).prod = ∏ j ∈ (Finset.range n).erase i, g j := by
+  have hnd : (others n i).Nodup := List.Nodup.filter _ List.nodup_range
+  rw [← List.prod_toFinset g hnd]
+  congr 1
+  ext j
+  simp [others]
+  tauto
+
+/-- the `j`-th index as an element of the scalar field. -/
+def xz (xs : List Int) (j : Nat) : ZMod R := ((xs.getD j 0 : Int) : ZMod R)
+
+theorem toNat_cast (z : Int) (hz : 0 ≤ z) : ((z.toNat : ℕ) : ZMod R) = (z : ZMod R) := by
+  rw [← Int.cast_natCast, Int.toNat_of_nonneg hz]
+
+theorem lagrangeBasis_cast [hp : Fact (Nat.Prime R)] (xs : List Int) (i : Nat)
+    (hne : ∀ j ∈ (Finset.range xs.length).erase i, xz xs j ≠ xz xs i) :
+    ∃ b, lagrangeBasis i xs = some b ∧ b < R ∧
+      (b : ZMod R) = ∏ j ∈ (Finset.range xs.length).erase i, xz xs j / (xz xs j - xz xs i) := by
+  have hR0 : (0 : Int) < (R : Int) := by exact_mod_cast hp.out.pos
+  have hRne : ((R : Nat) : Int) ≠ 0 := ne_of_gt hR0
+  unfold lagrangeBasis
+  simp only
+  set num := prodMod ((others xs.length i).map fun j => xs.getD j 0) with hnum
+  set den := prodMod ((others xs.length i).map fun j => xs.getD j 0 - xs.getD i 0) with hden
+  have hdenc : ((den : Int) : ZMod R) = ∏ j ∈ (Finset.range xs.length).erase i, (xz xs j - xz xs i) := by
+    rw [hden, prodMod_cast, List.map_map, others_prod]
+    apply Finset.prod_congr rfl
+    intro j _
+    simp [xz]
+  have hnumc : ((num : Int) : ZMod R) = ∏ j ∈ (Finset.range xs.length).erase i, xz xs j := by
+    rw [hnum, prodMod_cast, List.map_map, others_prod]
+    apply Finset.prod_congr rfl
+    intro j _
+    simp [xz]
+  have hden0 : ((den : Int) : ZMod R) ≠ 0 := by
+    rw [hdenc, Finset.prod_ne_zero_iff]
+    intro j hj
+    exact sub_ne_zero.mpr (hne j hj)
+  have hmod : den % (R : Int) ≠ 0 := by
+    intro h
+    apply hden0
+    rw [← ZMod.intCast_mod, h]; simp
+  rw [if_neg hmod]
+  refine ⟨_, rfl, Nat.mod_lt _ hp.out.pos, ?_⟩
+  rw [ZMod.natCast_mod, Nat.cast_mul, powMod_cast, toNat_cast _ (Int.emod_nonneg _ hRne),
+    toNat_cast _ (Int.emod_nonneg _ hRne), ZMod.intCast_mod, ZMod.intCast_mod]
+  have hinv : ((den : Int) : ZMod R) ^ (R - 2) = ((den : Int) : ZMod R)⁻¹ := by
+    have h1 := ZMod.pow_card_sub_one_eq_one hden0
+    have h2 : 2 ≤ R := hp.out.two_le
+    apply eq_inv_of_mul_eq_one_left
+    rw [← pow_succ]
+    have : R - 2 + 1 = R - 1 := by omega
+    rw [this]; exact h1
+  rw [hinv, hnumc, hdenc, Finset.prod_div_distrib, div_eq_mul_inv]
+
+
+/-- the Lagrange coefficient at 0 for position `i`. -/
+noncomputable def coef [Fact (Nat.Prime R)] (xs : List Int) (i : Nat) : ZMod R :=
+  ∏ j ∈ (Finset.range xs.length).erase i, xz xs j / (xz xs j - xz xs i)
+
+theorem combineFrom_cast [Fact (Nat.Prime R)] (xs : List Int) (vals : List Nat) (hR : 0 < R) (is : List Nat)
+    (hB : ∀ i ∈ is, ∃ b, lagrangeBasis i xs = some b ∧ (b : ZMod R) = coef xs i) :
+    ∀ acc, acc < R → ∃ e, combineFrom xs vals is acc = .ok e ∧ e < R ∧
+      (e : ZMod R) = (acc : ZMod R) + (is.map (fun i => coef xs i * (vals.getD i 0 : ZMod R))).sum := by
+  induction is with
+  | nil => intro acc hacc; exact ⟨acc, rfl, hacc, by simp⟩
+  | cons i is ih =>
+    intro acc hacc
+    obtain ⟨b, hb, hbc⟩ := hB i (by simp)
+    obtain ⟨e, he, helt, hec⟩ := ih (fun k hk => hB k (by simp [hk])) ((acc + b * vals.getD i 0) % R)
+      (Nat.mod_lt _ hR)
+    refine ⟨e, ?_, helt, ?_⟩
+    · simp only [combineFrom, hb]; exact he
+    · rw [hec, ZMod.natCast_mod]
+      simp only [List.map_cons, List.sum_cons]
+      push_cast
+      rw [hbc]; ring
+
+theorem list_range_sum {M : Type} [AddCommMonoid M] (n : Nat) (g : Nat → M) :
+    ((List.range n).map g).sum = ∑ i ∈ Finset.range n, g i := by
+  induction n with
+  | zero => simp
+  | succ n ih => rw [List.range_succ, List.map_append, List.sum_append, ih, Finset.sum_range_succ]; simp
+
+open Polynomial in
+/-- Lagrange interpolation at 0: a polynomial of degree `< n` evaluated at 0 is the
+    `coef`-weighted sum of its values at `n` distinct points. -/
+theorem eval_zero_eq_sum [hp : Fact (Nat.Prime R)] (xs : List Int) (f : (ZMod R)[X])
+    (hinj : Set.InjOn (xz xs) (Finset.range xs.length : Set ℕ))
+    (hdeg : f.degree < xs.length) :
+    f.eval 0 = ∑ i ∈ Finset.range xs.length, coef xs i * f.eval (xz xs i) := by
+  have hf := Lagrange.eq_interpolate_of_eval_eq (s := Finset.range xs.length) (v := xz xs)
+    (r := fun i => f.eval (xz xs i)) hinj (by simpa using hdeg) (fun i _ => rfl)
+  conv_lhs => rw [hf]
+  rw [Lagrange.interpolate_apply, Polynomial.eval_finsetSum]
+  apply Finset.sum_congr rfl
+  intro i hi
+  rw [Polynomial.eval_mul, Polynomial.eval_C, mul_comm]
+  congr 1
+  unfold coef Lagrange.basis
+  rw [Polynomial.eval_prod]
+  apply Finset.prod_congr rfl
+  intro j hj
+  have hji : xz xs j ≠ xz xs i := by
+    intro h
+    have hj' := Finset.mem_erase.mp hj
+    exact hj'.1 (hinj (by exact_mod_cast hj'.2) (by exact_mod_cast hi) h)
+  unfold Lagrange.basisDivisor
+  simp only [Polynomial.eval_mul, Polynomial.eval_C, Polynomial.eval_sub, Polynomial.eval_X]
+  have h1 : xz xs j - xz xs i ≠ 0 := sub_ne_zero.mpr hji
+  have h2 : xz xs i - xz xs j ≠ 0 := sub_ne_zero.mpr (Ne.symm hji)
+  field_simp
+  ring
+
+theorem getD_fst (used : List (Int × Nat)) (j : Nat) (hj : j < used.length) :
+    (used.map (·.1)).getD j 0 = used[j].1 := by
+  simp [List.getD_eq_getElem?_getD, List.getElem?_eq_getElem hj]
+
+theorem getD_snd (used : List (Int × Nat)) (j : Nat) (hj : j < used.length) :
+    (used.map (·.2)).getD j 0 = used[j].2 := by
+  simp [List.getD_eq_getElem?_getD, List.getElem?_eq_getElem hj]
+
+theorem xz_eq (used : List (Int × Nat)) (j : Nat) (hj : j < used.length) :
+    xz (used.map (·.1)) j = ((used[j].1 : Int) : ZMod R) := by
+  unfold xz; rw [getD_fst _ _ hj]
+
+open Polynomial in
+/-- **Recovery theorem** (over the model the driver runs).  If the used shares have indices that
+    are distinct in the scalar field and their values are `f(index) · M` for a polynomial `f` of
+    degree below the number of shares, the Lagrange combination is `f(0) · M`. -/
+theorem combine_eq_secret [hp : Fact (Nat.Prime R)] (used : List (Int × Nat))
+    (f : (ZMod R)[X]) (M : ZMod R)
+    (hdist : (used.map (fun s => ((s.1 : Int) : ZMod R))).Nodup)
+    (hdeg : f.degree < used.length)
+    (hval : ∀ s ∈ used, (s.2 : ZMod R) = f.eval ((s.1 : Int) : ZMod R) * M) :
+    ∃ e, combine used = .ok e ∧ e < R ∧ (e : ZMod R) = f.eval 0 * M := by
+  have hlen : (used.map (·.1)).length = used.length := by simp
+  have hxz : ∀ j (hj : j < used.length),
+      xz (used.map (·.1)) j = (used.map (fun s => ((s.1 : Int) : ZMod R)))[j]'(by simpa using hj) := by
+    intro j hj
+    rw [xz_eq _ _ hj]; simp
+  have hinj : Set.InjOn (xz (used.map (·.1))) (Finset.range (used.map (·.1)).length : Set ℕ) := by
+    intro j hj k hk hjk
+    rw [hlen] at hj hk
+    have hj' : j < used.length := by simpa using hj
+    have hk' : k < used.length := by simpa using hk
+    rw [hxz j hj', hxz k hk'] at hjk
+    exact (hdist.getElem_inj_iff).mp hjk
+  have hB : ∀ i ∈ List.range used.length, ∃ b, lagrangeBasis i (used.map (·.1)) = some b ∧
+      (b : ZMod R) = coef (used.map (·.1)) i := by
+    intro i hi
+    have hi' : i < used.length := List.mem_range.mp hi
+    obtain ⟨b, hb, _, hbc⟩ := lagrangeBasis_cast (used.map (·.1)) i (by
+      intro j hj h
+      have hj' := Finset.mem_erase.mp hj
+      exact hj'.1 (hinj (by exact_mod_cast hj'.2) (by rw [hlen]; simpa using hi') h))
+    exact ⟨b, hb, hbc⟩
+  obtain ⟨e, he, helt, hec⟩ := combineFrom_cast (used.map (·.1)) (used.map (·.2)) hp.out.pos
+    (List.range used.length) hB 0 hp.out.pos
+  refine ⟨e, he, helt, ?_⟩
+  rw [hec, list_range_sum, eval_zero_eq_sum (used.map (·.1)) f hinj (by rw [hlen]; exact hdeg), hlen,
+    Finset.sum_mul]
+  simp only [Nat.cast_zero, zero_add]
+  apply Finset.sum_congr rfl
+  intro i hi
+  have hi' : i < used.length := Finset.mem_range.mp hi
+  have hv := hval (used[i]) (List.getElem_mem hi')
+  rw [getD_snd _ _ hi', hv, mul_assoc]
+  congr 2
+  rw [xz_eq _ _ hi']
+
+/-- two exponents below `R` with the same image in `ZMod R` are equal. -/
+theorem eq_of_cast_eq {a b : Nat} (ha : a < R) (hb : b < R) (h : (a : ZMod R) = (b : ZMod R)) :
+    a = b := by
+  have := (ZMod.natCast_eq_natCast_iff' a b R).mp h
+  rwa [Nat.mod_eq_of_lt ha, Nat.mod_eq_of_lt hb] at this
+
+open Polynomial in
+/-- **Uniqueness**: any two share lists (any subset of size above the degree, any order) that
+    carry correct shares of the same polynomial recover the same value. -/
+theorem recover_unique [hp : Fact (Nat.Prime R)] (used₁ used₂ : List (Int × Nat))
+    (f : (ZMod R)[X]) (M : ZMod R)
+    (hd₁ : (used₁.map (fun s => ((s.1 : Int) : ZMod R))).Nodup)
+    (hd₂ : (used₂.map (fun s => ((s.1 : Int) : ZMod R))).Nodup)
+    (hg₁ : f.degree < used₁.length) (hg₂ : f.degree < used₂.length)
+    (hv₁ : ∀ s ∈ used₁, (s.2 : ZMod R) = f.eval ((s.1 : Int) : ZMod R) * M)
+    (hv₂ : ∀ s ∈ used₂, (s.2 : ZMod R) = f.eval ((s.1 : Int) : ZMod R) * M) :
+    combine used₁ = combine used₂ := by
+  obtain ⟨e₁, h₁, l₁, c₁⟩ := combine_eq_secret used₁ f M hd₁ hg₁ hv₁
+  obtain ⟨e₂, h₂, l₂, c₂⟩ := combine_eq_secret used₂ f M hd₂ hg₂ hv₂
+  rw [h₁, h₂, eq_of_cast_eq l₁ l₂ (c₁.trans c₂.symm)]
+
+open Polynomial in
+/-- **Order independence** with no assumption on the values: permuting shares with distinct
+    indices does not change the recovered value (they always lie on a unique polynomial of degree
+    below their number). This is what makes the Go map iteration in `completeSignature` harmless. -/
+theorem recover_perm [hp : Fact (Nat.Prime R)] (used₁ used₂ : List (Int × Nat))
+    (hperm : used₁.Perm used₂)
+    (hd₁ : (used₁.map (fun s => ((s.1 : Int) : ZMod R))).Nodup) :
+    combine used₁ = combine used₂ := by
+  classical
+  have hlen : (used₁.map (·.1)).length = used₁.length := by simp
+  have hxz : ∀ j (hj : j < used₁.length),
+      xz (used₁.map (·.1)) j = (used₁.map (fun s => ((s.1 : Int) : ZMod R)))[j]'(by simpa using hj) := by
+    intro j hj
+    rw [xz_eq _ _ hj]; simp
+  have hinj : Set.InjOn (xz (used₁.map (·.1))) (Finset.range used₁.length : Set ℕ) := by
+    intro j hj k hk hjk
+    have hj' : j < used₁.length := by simpa using hj
+    have hk' : k < used₁.length := by simpa using hk
+    rw [hxz j hj', hxz k hk'] at hjk
+    exact (hd₁.getElem_inj_iff).mp hjk
+  let r : ℕ → ZMod R := fun i => (((used₁.map (·.2)).getD i 0 : ℕ) : ZMod R)
+  let f := Lagrange.interpolate (Finset.range used₁.length) (xz (used₁.map (·.1))) r
+  have hdeg : f.degree < used₁.length := by
+    have := Lagrange.degree_interpolate_lt (r := r) hinj
+    rw [Finset.card_range] at this
+    exact this
+  have hv₁ : ∀ s ∈ used₁, (s.2 : ZMod R) = f.eval ((s.1 : Int) : ZMod R) * 1 := by
+    intro s hs
+    obtain ⟨i, hi, rfl⟩ := List.mem_iff_getElem.mp hs
+    have h := Lagrange.eval_interpolate_at_node (r := r) hinj (Finset.mem_range.mpr hi)
+    have hx : xz (used₁.map (·.1)) i = ((used₁[i].1 : Int) : ZMod R) := xz_eq _ _ hi
+    rw [mul_one, ← hx]
+    show _ = Polynomial.eval _ (Lagrange.interpolate _ _ r)
+    rw [h]
+    show _ = (((used₁.map (·.2)).getD i 0 : ℕ) : ZMod R)
+    rw [getD_snd _ _ hi]
+  have hd₂ : (used₂.map (fun s => ((s.1 : Int) : ZMod R))).Nodup :=
+    (hperm.map _).nodup_iff.mp hd₁
+  have hv₂ : ∀ s ∈ used₂, (s.2 : ZMod R) = f.eval ((s.1 : Int) : ZMod R) * 1 :=
+    fun s hs => hv₁ s (hperm.mem_iff.mpr hs)
+  exact recover_unique used₁ used₂ f 1 hd₁ hd₂ hdeg (by rw [← hperm.length_eq]; exact hdeg) hv₁ hv₂
+
+
+
+/-! ## Consequences for `RecoverSignature` -/
+
+theorem take_getD {α : Type} (l : List α) (k i : Nat) (d : α) (h : i < k) :
+    (l.take k).getD i d = l.getD i d := by
+  simp [List.getD_eq_getElem?_getD, h]
+
+/-- **What held before the fix** (`recover_skips` is false of the old code): if no skipped entry
+    occurs among the first `thr` entries, old and fixed code agree. -/
+theorem recover_skips_partial (thr : Int) (pre post : List Entry)
+    (hpre : ∀ e ∈ pre, e.valid?.isSome) (h0 : 0 ≤ thr) (hlen : thr ≤ pre.length) :
+    recoverSigOld thr (pre ++ post) = recoverSig thr (pre ++ post) := by
+  obtain ⟨hvl, hvg⟩ := allValid_getD pre hpre
+  have hk : thr.toNat ≤ (pre.filterMap Entry.valid?).length := by omega
+  have hused : collectSig thr (pre ++ post) [] = (pre.filterMap Entry.valid?).take thr.toNat := by
+    rw [collectSig_eq, usedOf, if_pos h0, List.filterMap_append, List.take_append_of_le_length hk]
+  unfold recoverSigOld recoverSig
+  simp only [hused]
+  split
+  · rfl
+  · unfold combine
+    apply combineOld_eq
+    intro i hi
+    have hi' : i < thr.toNat := by
+      have := List.mem_range.mp hi
+      rw [List.length_take] at this
+      omega
+    have hip : i < pre.length := by omega
+    obtain ⟨idx, hidx⟩ := hvg i hip
+    refine ⟨idx, ?_⟩
+    rw [List.map_take, take_getD _ _ _ _ hi']
+    rw [← hidx]
+    simp [List.getD_eq_getElem?_getD, List.getElem?_append_left hip]
+
+open Polynomial in
+/-- **C03, recovery**: for every threshold `thr ≥ 0`, every input slice whose first `thr`
+    non-skipped entries have distinct indices (in the scalar field) and carry the values
+    `f(index) • M` of a polynomial of degree `< thr` — in any order, any subset, with skipped
+    entries interleaved anywhere — `RecoverSignature` returns `f(0) • M`. -/
+theorem recover_eq_secret [hp : Fact (Nat.Prime R)] (thr : Int) (es : List Entry)
+    (f : (ZMod R)[X]) (M : ZMod R) (h0 : 0 ≤ thr)
+    (henough : thr ≤ (es.filterMap Entry.valid?).length)
+    (hdist : (((es.filterMap Entry.valid?).take thr.toNat).map
+      (fun s => ((s.1 : Int) : ZMod R))).Nodup)
+    (hdeg : f.degree < thr.toNat)
+    (hval : ∀ s ∈ (es.filterMap Entry.valid?).take thr.toNat,
+      (s.2 : ZMod R) = f.eval ((s.1 : Int) : ZMod R) * M) :
+    ∃ e, recoverSig thr es = .ok e ∧ e < R ∧ (e : ZMod R) = f.eval 0 * M := by
+  have hl : ((es.filterMap Entry.valid?).take thr.toNat).length = thr.toNat := by
+    rw [List.length_take]; omega
+  obtain ⟨e, he, helt, hec⟩ := combine_eq_secret _ f M hdist (by rw [hl]; exact hdeg) hval
+  refine ⟨e, ?_, helt, hec⟩
+  rw [recoverSig_eq_recoverValid, recoverValid, usedOf, if_pos h0, hl, if_neg (by omega)]
+  exact he
+
+/-- fewer than `thr` non-skipped entries give the error, whatever else is in the slice. -/
+theorem recover_not_enough (thr : Int) (es : List Entry)
+    (h : ((es.filterMap Entry.valid?).length : Int) < thr) :
+    recoverSig thr es = .notEnough := by
+  have h0 : 0 ≤ thr := by omega
+  rw [recoverSig_eq_recoverValid, recoverValid, usedOf, if_pos h0, List.length_take]
+  rw [if_pos (by omega)]
+
+/-! ## Verification (A-field: exponent form of the pairing check) -/
+
+/-- `VerifyG1 (sk•G2) (m•G1) (s•G1)` holds iff `s = sk·m` in the scalar field. -/
+theorem verify_iff (pk m s : Nat) :
+    verify pk m s = true ↔ ((s : ZMod R)) = (pk : ZMod R) * (m : ZMod R) := by
+  unfold verify
+  rw [beq_iff_eq, ← ZMod.natCast_eq_natCast_iff']
+  push_cast
+  exact eq_comm
+
+open Polynomial in
+/-- **C03, the recovered signature verifies under the group public key** `f(0) • G2`. -/
+theorem recovered_verifies [hp : Fact (Nat.Prime R)] (thr : Int) (es : List Entry)
+    (f : (ZMod R)[X]) (a0 m : Nat) (h0 : 0 ≤ thr)
+    (ha0 : f.eval 0 = (a0 : ZMod R))
+    (henough : thr ≤ (es.filterMap Entry.valid?).length)
+    (hdist : (((es.filterMap Entry.valid?).take thr.toNat).map
+      (fun s => ((s.1 : Int) : ZMod R))).Nodup)
+    (hdeg : f.degree < thr.toNat)
+    (hval : ∀ s ∈ (es.filterMap Entry.valid?).take thr.toNat,
+      (s.2 : ZMod R) = f.eval ((s.1 : Int) : ZMod R) * (m : ZMod R)) :
+    ∃ e, recoverSig thr es = .ok e ∧ verify a0 m e = true := by
+  obtain ⟨e, he, _, hec⟩ := recover_eq_secret thr es f (m : ZMod R) h0 henough hdist hdeg hval
+  exact ⟨e, he, (verify_iff a0 m e).mpr (by rw [hec, ha0])⟩
+
+/-! ## Share validation (`extractAndValidateShare`) -/
+
+/-- A share is accepted exactly when the bytes unmarshal to a G1 point, the sender has a public
+    key share, and the point is `(pk_sender · prev) • G` (= the pairing check under A-field);
+    the accepted value is that point. -/
+theorem validateShare_accepted_iff (sender : Nat) (pks : List (Nat × Nat)) (prev : Nat)
+    (share : Option (Nat × Nat)) (x y : Nat) :
+    validateShare sender pks prev share = .accepted x y ↔
+      ∃ pk, share.bind (fun s => g1Unmarshal s.1 s.2) = some (x, y) ∧
+        pks.lookup sender = some pk ∧ g1OfExp (pk * prev) = (x, y) := by
+  unfold validateShare
+  cases hs : share.bind (fun s => g1Unmarshal s.1 s.2) with
+  | none => simp
+  | some pt =>
+    cases hl : pks.lookup sender with
+    | none => simp
+    | some pk =>
+      simp only
+      by_cases hv : g1OfExp (pk * prev) = pt
+      · rw [if_pos hv]
+        constructor
+        · intro h
+          injection h with h1 h2
+          exact ⟨pk, by rw [← h1, ← h2], rfl, by rw [hv, ← h1, ← h2]⟩
+        · rintro ⟨pk', h1, h2, _⟩
+          injection h1 with h1; injection h2 with h2
+          subst h1; rfl
+      · rw [if_neg hv]
+        constructor
+        · intro h; cases h
+        · rintro ⟨pk', h1, h2, h3⟩
+          injection h1 with h1; injection h2 with h2
+          subst h1; subst h2; exact absurd h3 hv
+
+/-- the receive loop as a fold over any message history: shares that validate are stored
+    under their sender (later messages overwrite), everything else is dropped. -/
+def receiveLoop (pks : List (Nat × Nat)) (prev : Nat) :
+    List (Nat × Option (Nat × Nat)) → List (Nat × (Nat × Nat)) → List (Nat × (Nat × Nat))
+  | [], acc => acc
+  | (sender, bytes) :: rest, acc =>
+    match validateShare sender pks prev bytes with
+    | .accepted x y => receiveLoop pks prev rest ((sender, (x, y)) :: acc.filter (·.1 != sender))
+    | _ => receiveLoop pks prev rest acc
+
+/-- **C03, only verified shares are used**: after any message history, every stored share of a
+    sender verifies under that sender's public key share (own share aside = the initial `acc`). -/
+theorem only_verified_shares_used (pks : List (Nat × Nat)) (prev : Nat)
+    (msgs : List (Nat × Option (Nat × Nat))) (acc : List (Nat × (Nat × Nat)))
+    (hacc : ∀ p ∈ acc, ∃ pk, pks.lookup p.1 = some pk ∧ g1OfExp (pk * prev) = p.2) :
+    ∀ p ∈ receiveLoop pks prev msgs acc, ∃ pk, pks.lookup p.1 = some pk ∧ g1OfExp (pk * prev) = p.2 := by
+  induction msgs generalizing acc with
+  | nil => exact hacc
+  | cons msg rest ih =>
+    obtain ⟨sender, bytes⟩ := msg
+    unfold receiveLoop
+    cases hv : validateShare sender pks prev bytes with
+    | accepted x y =>
+      apply ih
+      intro p hp
+      rcases List.mem_cons.mp hp with rfl | hp
+      · obtain ⟨pk, _, h2, h3⟩ := (validateShare_accepted_iff _ _ _ _ _ _).mp hv
+        exact ⟨pk, h2, h3⟩
+      · exact hacc p (List.mem_filter.mp hp).1
+    | unmarshal => exact ih acc hacc
+    | nosender => exact ih acc hacc
+    | invalid => exact ih acc hacc
+
+
+/-! ## The monitor accepts every model output -/
+
+open Polynomial
+
+/-- the generator's polynomial as a `Polynomial (ZMod R)`. -/
+noncomputable def polyOf : List Nat → (ZMod R)[X]
+  | [] => 0
+  | c :: cs => C (c : ZMod R) + X * polyOf cs
+
+theorem evalPoly_cast (coefs : List Nat) (x : Int) :
+    ((evalPoly coefs x : Int) : ZMod R) = (polyOf coefs).eval (x : ZMod R) := by
+  induction coefs with
+  | nil => simp [evalPoly, polyOf]
+  | cons c cs ih =>
+    have : evalPoly (c :: cs) x = (evalPoly cs x * x + (c : Int)) % (R : Int) := rfl
+    rw [this, ZMod.intCast_mod]
+    push_cast
+    rw [ih]
+    simp [polyOf]
+    ring
+
+theorem polyOf_coeff (coefs : List Nat) : ∀ k, coefs.length ≤ k → (polyOf coefs).coeff k = 0 := by
+  induction coefs with
+  | nil => intro k _; simp [polyOf]
+  | cons c cs ih =>
+    intro k hk
+    cases k with
+    | zero => simp at hk
+    | succ k =>
+      simp only [polyOf, coeff_add, coeff_C_succ, coeff_X_mul, zero_add]
+      exact ih k (by simpa using hk)
+
+theorem polyOf_degree (coefs : List Nat) : (polyOf coefs).degree < coefs.length :=
+  (degree_lt_iff_coeff_zero _ _).mpr (polyOf_coeff coefs)
+
+theorem polyOf_eval_zero (coefs : List Nat) :
+    (polyOf coefs).eval 0 = ((coefs.headD 0 : Nat) : ZMod R) := by
+  cases coefs <;> simp [polyOf]
+
+theorem nodupInts_nodup : ∀ l : List Int, nodupInts l = true → l.Nodup
+  | [], _ => List.nodup_nil
+  | x :: xs, h => by
+    simp only [nodupInts, Bool.and_eq_true, Bool.not_eq_true', List.contains_eq_mem,
+      decide_eq_false_iff_not] at h
+    exact List.nodup_cons.mpr ⟨h.1, nodupInts_nodup xs h.2⟩
+
+theorem nodup_nodupInts : ∀ l : List Int, l.Nodup → nodupInts l = true
+  | [], _ => rfl
+  | x :: xs, h => by
+    have h' := List.nodup_cons.mp h
+    simp only [nodupInts, Bool.and_eq_true, Bool.not_eq_true', List.contains_eq_mem,
+      decide_eq_false_iff_not]
+    exact ⟨h'.1, nodup_nodupInts xs h'.2⟩
+
+theorem valid_nonneg (es : List Entry) : ∀ s ∈ es.filterMap Entry.valid?, 0 ≤ s.1 := by
+  intro s hs
+  obtain ⟨e, _, he⟩ := List.mem_filterMap.mp hs
+  cases e with
+  | nil => simp [Entry.valid?] at he
+  | noV i => simp [Entry.valid?] at he
+  | share i v =>
+    by_cases hneg : i < 0
+    · simp [Entry.valid?, hneg] at he
+    · simp [Entry.valid?, hneg] at he
+      rw [← he]; simpa using hneg
+
+theorem cast_inj_of_bounds {a b : Int} (ha0 : 0 ≤ a) (ha : a < R) (hb0 : 0 ≤ b) (hb : b < R)
+    (h : (a : ZMod R) = (b : ZMod R)) : a = b := by
+  have := (ZMod.intCast_eq_intCast_iff' a b R).mp h
+  rwa [Int.emod_eq_of_lt ha0 ha, Int.emod_eq_of_lt hb0 hb] at this
+
+theorem cast_nodup (used : List (Int × Nat)) (hnd : (used.map (·.1)).Nodup)
+    (h0 : ∀ s ∈ used, 0 ≤ s.1) (hR : ∀ s ∈ used, s.1 < (R : Int)) :
+    (used.map (fun s => ((s.1 : Int) : ZMod R))).Nodup := by
+  have : used.map (fun s => ((s.1 : Int) : ZMod R)) = (used.map (·.1)).map (fun z : Int => (z : ZMod R)) := by
+    simp
+  rw [this]
+  apply List.Nodup.map_on _ hnd
+  intro a ha b hb hab
+  obtain ⟨s, hs, rfl⟩ := List.mem_map.mp ha
+  obtain ⟨t, ht, rfl⟩ := List.mem_map.mp hb
+  exact cast_inj_of_bounds (h0 s hs) (hR s hs) (h0 t ht) (hR t ht) hab
+
+
+theorem correctShare_cast [hp : Fact (Nat.Prime R)] (coefs : List Nat) (m : Nat) (s : Int × Nat)
+    (h : correctShare coefs m s = true) :
+    (s.2 : ZMod R) = (polyOf coefs).eval ((s.1 : Int) : ZMod R) * (m : ZMod R) := by
+  have hRne : ((R : Nat) : Int) ≠ 0 := by exact_mod_cast hp.out.ne_zero
+  unfold correctShare at h
+  rw [beq_iff_eq] at h
+  have h2 := congrArg (fun n : Nat => (n : ZMod R)) h
+  simp only [ZMod.natCast_mod] at h2
+  rw [toNat_cast _ (Int.emod_nonneg _ hRne), ZMod.intCast_mod] at h2
+  rw [← h2]
+  push_cast
+  rw [evalPoly_cast]
+
+theorem combineFrom_ne_notEnough (xs : List Int) (vals : List Nat) :
+    ∀ (is : List Nat) (acc : Nat), combineFrom xs vals is acc ≠ .notEnough := by
+  intro is
+  induction is with
+  | nil => intro acc h; cases h
+  | cons i is ih =>
+    intro acc
+    unfold combineFrom
+    cases lagrangeBasis i xs with
+    | none => intro h; cases h
+    | some b => exact ih _
+
+/-- distinct indices (in the scalar field) never make the recovery crash. -/
+theorem combine_ok_of_nodup [hp : Fact (Nat.Prime R)] (used : List (Int × Nat))
+    (hdist : (used.map (fun s => ((s.1 : Int) : ZMod R))).Nodup) :
+    ∃ e, combine used = .ok e := by
+  have hlen : (used.map (·.1)).length = used.length := by simp
+  have hB : ∀ i ∈ List.range used.length, ∃ b, lagrangeBasis i (used.map (·.1)) = some b ∧
+      (b : ZMod R) = coef (used.map (·.1)) i := by
+    intro i hi
+    have hi' : i < used.length := List.mem_range.mp hi
+    obtain ⟨b, hb, _, hbc⟩ := lagrangeBasis_cast (used.map (·.1)) i (by
+      intro j hj h
+      have hj' := Finset.mem_erase.mp hj
+      have hjl : j < used.length := by rw [← hlen]; exact Finset.mem_range.mp hj'.2
+      rw [xz_eq _ _ hjl, xz_eq _ _ hi'] at h
+      have h' : (used.map (fun s => ((s.1 : Int) : ZMod R)))[j]'(by simpa using hjl) =
+          (used.map (fun s => ((s.1 : Int) : ZMod R)))[i]'(by simpa using hi') := by simpa using h
+      exact hj'.1 ((hdist.getElem_inj_iff).mp h'))
+    exact ⟨b, hb, hbc⟩
+  obtain ⟨e, he, _, _⟩ := combineFrom_cast (used.map (·.1)) (used.map (·.2)) hp.out.pos
+    (List.range used.length) hB 0 hp.out.pos
+  exact ⟨e, he⟩
+
+theorem crashOk_of_panic [hp : Fact (Nat.Prime R)] (used : List (Int × Nat))
+    (h0 : ∀ s ∈ used, 0 ≤ s.1) (hpanic : combine used = .panic) :
+    (!nodupInts (used.map (·.1)) || used.any (fun s => decide ((R : Int) ≤ s.1))) = true := by
+  by_contra hcon
+  simp only [Bool.or_eq_true, Bool.not_eq_true', List.any_eq_true, decide_eq_true_eq, not_or,
+    Bool.not_eq_false, not_exists, not_and, not_le] at hcon
+  obtain ⟨hnd, hlt⟩ := hcon
+  obtain ⟨e, he⟩ := combine_ok_of_nodup used (cast_nodup used (nodupInts_nodup _ hnd) h0 hlt)
+  rw [he] at hpanic; cases hpanic
+
+/-- **The monitor accepts every output of the model** (so: implementation = model on a case, and
+    the theorems about the model, give the property for that case of the implementation). -/
+theorem holdsRec_model [hp : Fact (Nat.Prime R)] (thr : Int) (es : List Entry) (coefs : List Nat)
+    (m : Nat) :
+    match recoverSig thr es with
+    | .ok e => holdsRec thr es coefs m (some (g1OfExp e, verify (coefs.headD 0) m e)) = true
+    | .notEnough => holdsRec thr es coefs m none = true
+    | .panic => holdsRecCrashOk thr es = true := by
+  have hvalid0 := valid_nonneg es
+  by_cases h1 : thr < 1
+  · have hrec : ∀ o, holdsRec thr es coefs m o = true := by
+      intro o; unfold holdsRec; simp [h1]
+    cases hr : recoverSig thr es with
+    | ok e => exact hrec _
+    | notEnough => exact hrec _
+    | panic =>
+      simp only
+      unfold holdsRecCrashOk
+      simp only [if_pos h1]
+      rw [recoverSig_eq_recoverValid, recoverValid] at hr
+      by_cases h0 : 0 ≤ thr
+      · have : thr = 0 := by omega
+        subst this
+        simp [usedOf, combine, combineFrom] at hr
+      · have hu : usedOf thr (es.filterMap Entry.valid?) = es.filterMap Entry.valid? := by
+          simp [usedOf, h0]
+        rw [hu] at hr
+        split at hr
+        · cases hr
+        · exact crashOk_of_panic _ hvalid0 hr
+  · have h0 : 0 ≤ thr := by omega
+    by_cases h2 : ((es.filterMap Entry.valid?).length : Int) < thr
+    · rw [recover_not_enough thr es h2]
+      simp only
+      unfold holdsRec
+      simp [h1, h2]
+    · have hl : ((es.filterMap Entry.valid?).take thr.toNat).length = thr.toNat := by
+        rw [List.length_take]; omega
+      have hrs : recoverSig thr es = combine ((es.filterMap Entry.valid?).take thr.toNat) := by
+        rw [recoverSig_eq_recoverValid, recoverValid, usedOf, if_pos h0, hl, if_neg (by omega)]
+      have hused0 : ∀ s ∈ (es.filterMap Entry.valid?).take thr.toNat, 0 ≤ s.1 :=
+        fun s hs => hvalid0 s (List.mem_of_mem_take hs)
+      rw [hrs]
+      cases hc : combine ((es.filterMap Entry.valid?).take thr.toNat) with
+      | notEnough => exact absurd hc (combineFrom_ne_notEnough _ _ _ _)
+      | panic =>
+        simp only
+        unfold holdsRecCrashOk
+        simp only [if_neg h1]
+        exact crashOk_of_panic _ hused0 hc
+      | ok e =>
+        simp only
+        unfold holdsRec
+        simp only [if_neg h1, if_neg h2]
+        split
+        · rename_i hcond
+          simp only [Bool.and_eq_true, List.all_eq_true, decide_eq_true_eq] at hcond
+          obtain ⟨⟨⟨hnd, hlt⟩, hcorr⟩, hclen⟩ := hcond
+          have hdist := cast_nodup _ (nodupInts_nodup _ hnd) hused0 hlt
+          have hdeg : (polyOf coefs).degree < ((es.filterMap Entry.valid?).take thr.toNat).length := by
+            refine lt_of_lt_of_le (polyOf_degree coefs) ?_
+            rw [hl]
+            have : coefs.length ≤ thr.toNat := by omega
+            exact_mod_cast this
+          obtain ⟨e', he', _, hec⟩ := combine_eq_secret _ (polyOf coefs) (m : ZMod R) hdist hdeg
+            (fun s hs => correctShare_cast coefs m s (hcorr s hs))
+          rw [hc] at he'
+          injection he' with he'
+          subst he'
+          rw [polyOf_eval_zero] at hec
+          have hv : verify (coefs.headD 0) m e = true := (verify_iff _ _ _).mpr hec
+          have hmod : e % R = (coefs.headD 0 * m) % R := by
+            apply (ZMod.natCast_eq_natCast_iff' _ _ _).mp
+            rw [hec]; push_cast; rfl
+          rw [hv, Bool.true_and, beq_iff_eq]
+          unfold g1OfExp
+          rw [hmod]
+        · rfl
+
+/-- the monitor for share validation accepts what the model accepts. -/
+theorem holdsAccepted_model (sender : Nat) (pks : List (Nat × Nat)) (prev : Nat)
+    (share : Option (Nat × Nat)) (x y : Nat)
+    (h : validateShare sender pks prev share = .accepted x y) :
+    holdsAccepted sender pks prev share (x, y) = true := by
+  obtain ⟨pk, h1, h2, h3⟩ := (validateShare_accepted_iff _ _ _ _ _ _).mp h
+  unfold holdsAccepted
+  rw [h1, h2]
+  simp [h3]
+
+
 end KeepVerif.C03
